@@ -73,6 +73,9 @@ fn execute_subgraph<'i>(
         }
         Err(e) if e.is_catchable() => {
             exec_ctx.make_subgraph_incomplete();
+            // the failure doesn't leave this par unless the other subgraph fails as well: let the next
+            // failure describe itself in :error: instead of keeping this one
+            exec_ctx.error_descriptor.enable_error_setting();
             trace_to_exec_err!(trace_ctx.meet_par_subgraph_end(subgraph_type), par)?;
             SubgraphResult::Failed(e)
         }
@@ -99,6 +102,8 @@ fn prepare_par_result(
     match (left_result, right_result) {
         (SubgraphResult::Succeeded, _) | (_, SubgraphResult::Succeeded) => {
             exec_ctx.last_error_descriptor.meet_par_successed_end();
+            // a failure of the other subgraph ends here, :error: is no-error again
+            exec_ctx.error_descriptor.clear_error_object_if_needed();
             Ok(())
         }
         (SubgraphResult::Failed(_), SubgraphResult::Failed(err)) => Err(err),
